@@ -76,6 +76,7 @@ func (g *Gen) call(fr *Frame, st *State, c *ssa.CallCommon, res ssa.Value) Val {
 		if key == "error.Error" {
 			return g.freshOfType(st, "errstr", resT)
 		}
+		g.callAnchorsInvoke(fr, st, c, args)
 		if con := g.P.contracts[key]; con != nil {
 			return g.applyContract(fr, st, con, c.Method.Type().(*types.Signature), append([]Val{recv}, args...), true, resT, c.Method.Pkg(), key)
 		}
